@@ -25,6 +25,8 @@ def norm_value(v):
             return ('adt', v['adt'], v['variant'], tuple((k, norm_value(x)) for k, x in v['fields'].items()))
         if 'fn' in v:
             return ('fn', v['fn'])
+        if 'bytes' in v:
+            return ('bytes', tuple(v['bytes']))
         return ('opaque', json.dumps(v, sort_keys=True))
     return ('opaque', repr(v))
 
